@@ -298,7 +298,13 @@ def check(case, ctx):
             if not expect_reject:
                 # is the target model valid? if a fresh build of it also fails, the refusal is legitimate
                 fresh, exc = F.build_case({"spec": after, "id_seed": 1})
-                if fresh is not None:
+                involved = {e.get("obj"), e.get("target"), e.get("up")} | set(e.get("targets", [])) | \
+                    {x for x in e.get("args", []) if isinstance(x, str)}
+                if fresh is not None and not (involved & (S.spec_reachable(after) | S.spec_reachable(cur))):
+                    # the edit only concerns objects outside the system: a fresh build never computes them, so it
+                    # cannot vouch for the target (the live model computes what it touches and may refuse)
+                    labels.append("refused_outside_system")
+                elif fresh is not None:
                     ctx.violation("valid_link_edit_rejected", case_i,
                                   "%s raised %s: %s although a system built with these links is valid" % (
                                       E.describe(e), type(raised).__name__, str(raised)[:200]),
